@@ -20,6 +20,17 @@ SPECS = [
              # what the translation function returns is what appears in the output
              "S() == S0() + 'A<p>' + piece(translate_result(0)) + '</p>B'",
          ], raises=ANYRAISE, serves=['C10']),
+    dict(id='S-Translate-name-condition',
+         # the named block is the element TOGETHER with its own guard: the ${name} placeholder belongs
+         # to the message whether or not the element renders; the mapping holds what it rendered
+         text='A<p i18n:translate="">t  <b i18n:name="n1" tal:condition="e3">%s</b>\n u</p>B' % H1,
+         ensures=[
+             "translate_calls() == 1", "evals(3) == 1",
+             "translate_arg(0, 'msgid') == 't ${n1} u'",
+             "translate_arg(0, 'default') == 't ${n1} u'",
+             "not bool(val(3)) or translate_arg(0, 'mapping')['n1'] == '<b>' + out(1) + '</b>'",
+             "bool(val(3)) or (holes(1) == 0 and translate_arg(0, 'mapping')['n1'] == '')",
+         ], raises={'*': {'ensures': ["raised('h1') or raised('e3')"]}}, serves=['C10']),
     dict(id='S-Translate-id',
          text='A<p i18n:translate="mid">t%s</p>B' % H1,
          ensures=[
